@@ -138,8 +138,9 @@ theorem run_map_order_independent_upto_unmodelled (P : Prims) (O : OutPrims) (hP
 
 /-- a map binding with its entries permuted is a related binding -/
 theorem binding_related_of_perm (kt vt : Ty) {kvs kvs' : List (GoVal × GoVal)} (hv : vt ≠ .priv)
-    (hk : MapOrder.KeysOK kvs) (hn : NoPriv kvs) (hp : kvs.Perm kvs') : MP (.map kt vt kvs) (.map kt vt kvs') :=
-  MP.map kt vt hv hk hn (MPV.refl _) hp
+    (hk : MapOrder.KeysOK kvs) (ht : KeysTyped kt kvs) (hn : NoPriv kvs) (hp : kvs.Perm kvs') :
+    MP (.map kt vt kvs) (.map kt vt kvs') :=
+  MP.map kt vt hv hk hn (MPV.refl _) hp ht
 
 /-- … at any depth: an array of such maps -/
 theorem binding_related_nested (t : Ty) {x y : GoVal} (h : MP x y) (xs : List GoVal) : MP (.slice t (x :: xs)) (.slice t (y :: xs)) :=
@@ -149,7 +150,7 @@ theorem binding_related_nested (t : Ty) {x y : GoVal} (h : MP x y) (xs : List Go
 layers that satisfy the hypotheses. -/
 
 example : MP (.map .any .any MapOrder.exA) (.map .any .any MapOrder.exB) :=
-  binding_related_of_perm .any .any (by simp) MapOrder.exA_keysOK
+  binding_related_of_perm .any .any (by simp) MapOrder.exA_keysOK (fun _ _ => rfl)
     (by intro kv h; simp only [MapOrder.exA, List.mem_cons, List.mem_nil_iff, or_false] at h
         rcases h with rfl | rfl | rfl | rfl | rfl <;> rfl)
     MapOrder.exB_perm_exA.symm
@@ -158,7 +159,7 @@ example : ∀ y, MP (Env.get [([109], .map .any .any MapOrder.exA)] y) (Env.get 
   intro y
   by_cases h : y = [109]
   · subst h
-    exact binding_related_of_perm .any .any (by simp) MapOrder.exA_keysOK
+    exact binding_related_of_perm .any .any (by simp) MapOrder.exA_keysOK (fun _ _ => rfl)
       (by intro kv h; simp only [MapOrder.exA, List.mem_cons, List.mem_nil_iff, or_false] at h
           rcases h with rfl | rfl | rfl | rfl | rfl <;> rfl)
       MapOrder.exB_perm_exA.symm
@@ -230,7 +231,7 @@ example : ∀ y, MP (Env.get [([97], .slice .any [.map .any .any MapOrder.exA, .
   by_cases h : y = [97]
   · subst h
     refine binding_related_nested .any ?_ _
-    exact binding_related_of_perm .any .any (by simp) MapOrder.exA_keysOK
+    exact binding_related_of_perm .any .any (by simp) MapOrder.exA_keysOK (fun _ _ => rfl)
       (by intro kv h; simp only [MapOrder.exA, List.mem_cons, List.mem_nil_iff, or_false] at h
           rcases h with rfl | rfl | rfl | rfl | rfl <;> rfl)
       MapOrder.exB_perm_exA.symm
